@@ -14,7 +14,7 @@ numpy geometry plus *relations* (no fall-off formula is assumed):
   (v)   several animals: output == sum of the real outputs of each animal alone
 
 Families enumerated
-  A  one animal, 2 nodes: ALL 64x64 ordered point pairs over the coordinate alphabet, both edge orientations
+  A  one animal, 2 nodes: ALL 81x81 ordered point pairs over the coordinate alphabet, both edge orientations
   B  one animal, 3 nodes: all triples over a point set Q, x all 24 edge lists (3 trees x 2 orders x 4 orientations)
   C  2 (thorough: also 3) animals drawn from fixed animal lists (inside, border-only, wholly outside,
      missing, half-missing, coincident, identical animals), 2-node x 2 edge lists and 3-node x 24 edge lists
@@ -34,8 +34,8 @@ from mc import core
 
 LEVEL = "model_checking"
 RULE = (
-    "inputs = instances arrays built from the per-axis coordinate alphabet {NaN,-4,0,1,2.5,3,N-1,N+3} (N = W for x, H for y): "
-    "A all 64^2 two-node animals x both edge orientations; B three-node animals over a point set Q x all 24 oriented/ordered "
+    "inputs = instances arrays built from the per-axis coordinate alphabet {NaN,-4,0,1,2.5,3,N-2,N-1,N+3} (N = W for x, H for y): "
+    "A all 81^2 two-node animals x both edge orientations; B three-node animals over a point set Q x all 24 oriented/ordered "
     "tree edge lists; C pairs (thorough: triples) of animals from fixed lists; Z no animal; each x image size x stride x sigma "
     "x flatten_channels x api(generate_pafs | PartAffinityFieldsGenerator); every case is one execution of the real code, "
     "checked against a float64 point-to-segment reference and the relations of the property. A case is non-trivial when the "
@@ -43,11 +43,13 @@ RULE = (
     "and the observed output is not all zero; distinct = distinct (api, flatten, hw, stride, sigma, instances, edge list)"
 )
 ASSUMPTIONS = [
-    "coordinates only from the alphabet {NaN,-4,0,1,2.5,3,N-1,N+3} per axis (dyadic, so 'cell lies on the segment' is decided exactly); no +-inf coordinates",
+    "coordinates only from the alphabet {NaN,-4,0,1,2.5,3,N-2,N-1,N+3} per axis (dyadic, so 'cell lies on the segment' is decided exactly); no +-inf coordinates",
     "animals <= 2 (quick) / <= 3 (thorough), nodes <= 3, edge lists = oriented/ordered spanning trees of the node set (1 or 2 edges)",
-    "image sizes {8,12}^2 incl. non-square, all multiples of the strides {1,2,4}; sigma in {0.5,1.5,4}; n_samples = 1 (generate_pafs reads instances[0] only)",
+    "image sizes (H,W): quick (8,12); thorough (8,8),(8,12),(12,8) and for family A also (12,12) -- all multiples of the strides {1,2,4}; sigma in {0.5,1.5,4}; n_samples = 1 (generate_pafs reads instances[0] only)",
     "edge_inds passed as torch.Tensor(list) (float tensor (E,2)), which is how CustomDataset/pipelines call the code",
     "'inside the image' = node in [0,W-1]x[0,H-1]; 'wholly outside' = no node inside; float32 tolerance ATOL=1e-5 on weights/components, DELTA=1e-4 on reference distances",
+    "quick runs (flatten, api) in {(True,fn),(False,fn),(True,dp)}; thorough the full 2x2 product",
+    "violations matching a known-finding signature predicate are recorded individually only for the first 12 per shard and predicate; the rest are counted in coverage.violations_with_signature_* (the runner stores at most 200 violations per shard and treats any overflow as unknown, i.e. as real)",
     "family C checks additivity against the real single-animal outputs; the per-animal clauses (ii)-(iv) are decided on the single-animal families A/B, of which C's animals are members",
 ]
 MIN_OUTCOMES = 200
@@ -62,11 +64,11 @@ APIS = ("fn", "dp")
 FLATTEN = (True, False)
 
 # per-axis coordinate alphabet, symbolic (index 6, 7 depend on the image extent along that axis)
-N_SYM = 8
+N_SYM = 9
 
 
 def coord(sym, n):
-    return (NAN, -4.0, 0.0, 1.0, 2.5, 3.0, float(n - 1), float(n + 3))[sym]
+    return (NAN, -4.0, 0.0, 1.0, 2.5, 3.0, float(n - 1), float(n + 3), float(n - 2))[sym]
 
 
 def point(p, hw):
@@ -74,7 +76,7 @@ def point(p, hw):
     return [coord(p[0], hw[1]), coord(p[1], hw[0])]
 
 
-ALL_POINTS = [(ix, iy) for ix in range(N_SYM) for iy in range(N_SYM)]  # 64, incl. half-missing points
+ALL_POINTS = [(ix, iy) for ix in range(N_SYM) for iy in range(N_SYM)]  # 81, incl. half-missing points
 
 # named symbolic points used for families B and C
 P_NAN = (0, 0)
@@ -137,8 +139,10 @@ A3 = [
 def configs(tier, family):
     if tier == "quick":
         hws = [(8, 12)]
-    else:
+    elif family == "A":
         hws = [(8, 8), (12, 12), (8, 12), (12, 8)]
+    else:
+        hws = [(8, 8), (8, 12), (12, 8)]
     return [(hw, s, sg) for hw in hws for s in STRIDES for sg in SIGMAS]
 
 
@@ -310,6 +314,7 @@ def check_single(case, arr, geom=None, stats=None):
                         animal=0,
                         edge=e,
                         w_observed=float(won[k]),
+                        cell=[ci, cj],
                         animal_output_all_zero=bool(all_zero),
                         detail=f"edge {ps}->{pd}: cell (row {ci}, col {cj}) = point ({cj * stride},{ci * stride}) lies on the segment but w={won[k] + 0.0:.6g} (expected 1)"
                         + (" [whole output of this animal is exactly zero]" if all_zero else ""),
@@ -330,6 +335,10 @@ def check_single(case, arr, geom=None, stats=None):
                     animal=0,
                     edge=e,
                     defect=float(defect),
+                    cell_a=[a // W_, a % W_],
+                    cell_b=[b // W_, b % W_],
+                    w_a=float(wr[a]),
+                    w_b=float(wr[b]),
                     detail=f"edge {ps}->{pd}: cell (row {a // W_}, col {a % W_}) at distance {dist.ravel()[a]:.6g} has w={wr[a]:.6g} < "
                     f"w={wr[b]:.6g} of cell (row {b // W_}, col {b % W_}) at distance {db:.6g} (weight must be non-increasing with distance)",
                 )
@@ -433,10 +442,24 @@ def _focus(case):
     return f if isinstance(f, dict) else None
 
 
+def _k1_distance(ps, pd, x, y):
+    """Distance from (x, y) to the foot point that results when the projection (c-src).d is divided by 1 instead of |d|^2
+    (what a denominator max(|d|^2, 1) does to an edge with |d| < 1): the mechanism K1 names."""
+    dx, dy = pd[0] - ps[0], pd[1] - ps[1]
+    rx, ry = x - ps[0], y - ps[1]
+    t = min(max(rx * dx + ry * dy, 0.0), 1.0)
+    return math.hypot(rx - t * dx, ry - t * dy)
+
+
 def k1_short_edge(case, msg):
-    """K1: single animal, edge with finite endpoints and length in (0,1) px; the only clauses broken are
-    'w = 1 on the segment' (with w still >= 0.95: the clamp misplaces the foot point by < 0.385 px) or monotonicity
-    (defect <= 0.25); direction, range, zero and shape clauses are not covered."""
+    """K1: one animal, edge with finite endpoints and length in (0,1) px, and the failure is explained by the foot point
+    being misplaced along the segment (by < 0.385 px):
+      * 'w = 1 on the segment' broken at a cell whose misplaced foot point is not the cell itself, with 0.95 <= w < 1
+        (with the present fall-off exp(-d^4/2 sigma^2) and sigma >= 0.5 the smallest such w is 0.957; a larger deviation
+        is deliberately NOT covered and shows up as a VIOLATION for re-triage), or
+      * monotonicity broken by a pair of cells (a closer than b, w_a < w_b) whose order of distance to the misplaced
+        foot point is the reverse (a not closer than b).
+    Direction, range, zero, shape, finiteness and additivity clauses are never covered."""
     f = _focus(case)
     if not f or f.get("clause") not in ("w_on_segment", "monotone") or len(case["inst"]) != 1:
         return False
@@ -447,9 +470,17 @@ def k1_short_edge(case, msg):
     L = math.hypot(pd[0] - ps[0], pd[1] - ps[1])
     if not (0.0 < L < 1.0):
         return False
+    st = case["stride"]
     if f["clause"] == "w_on_segment":
-        return (not f.get("animal_output_all_zero")) and 0.95 <= f.get("w_observed", -1.0) < 1.0
-    return 0.0 < f.get("defect", 1.0) <= 0.25
+        r, c = f["cell"]
+        return (
+            (not f.get("animal_output_all_zero"))
+            and 0.95 <= f.get("w_observed", -1.0) < 1.0
+            and _k1_distance(ps, pd, c * st, r * st) > 0.0
+        )
+    (ra, ca), (rb, cb) = f["cell_a"], f["cell_b"]
+    da, db = _k1_distance(ps, pd, ca * st, ra * st), _k1_distance(ps, pd, cb * st, rb * st)
+    return f["w_a"] < f["w_b"] and da >= db - 1e-6
 
 
 def k2_border_strip(case, msg):
@@ -558,9 +589,13 @@ def work(part, shard):
 
 def items_for(tier):
     items = []
-    for p in ALL_POINTS:
-        for q in ALL_POINTS:
+    for ip, p in enumerate(ALL_POINTS):
+        for iq, q in enumerate(ALL_POINTS):
             for el in edge_lists(2):
+                # quick: every ordered pair with the edge (0,1) (= every directed geometric edge), and the
+                # reversed listing (1,0) for the pairs with index(p) <= index(q) only; thorough: both for all
+                if tier == "quick" and el == [[1, 0]] and ip > iq:
+                    continue
                 items.append((tier, "A", ((p, q),), 2, el))
     Q = Q_QUICK if tier == "quick" else Q_THOROUGH
     for tri in itertools.product(Q, repeat=3):
@@ -599,8 +634,9 @@ def run(ctx):
     for it in items:
         fam[it[1]] = fam.get(it[1], 0) + 1
     ctx.bounds = {
-        "coordinate_alphabet_per_axis": ["NaN", -4, 0, 1, 2.5, 3, "N-1", "N+3"],
-        "family_A_two_node_animals": "all 64x64 ordered point pairs x 2 edge orientations",
+        "coordinate_alphabet_per_axis": ["NaN", -4, 0, 1, 2.5, 3, "N-1", "N+3", "N-2"],
+        "family_A_two_node_animals": "all 81x81 ordered point pairs x edge list [(0,1)]; edge list [(1,0)] for "
+        + ("the 3321 pairs with index(p)<=index(q)" if ctx.tier == "quick" else "all 81x81 pairs too"),
         "family_B_point_set_Q": [point(p, (8, 12)) for p in Q],
         "family_B_three_node_animals": f"all {len(Q)}^3 triples x 24 edge lists",
         "family_C_animals_per_frame": 2 if ctx.tier == "quick" else 3,
